@@ -190,7 +190,7 @@ def sqrt_mod(a, p):
 # builds the record itself with the outcome "Timeout" (or "Crash") -- which is neither a key nor a ValueError.
 PRETEND = None          # set in the parent after a child was killed / died: attempt() reports this outcome without calling the library
 PROGRESS_FD = None      # set in the child: where attempt() announces that the call has returned
-CALL_SECONDS = 6
+CALL_SECONDS = 8
 
 
 def attempt(fn, seconds=CALL_SECONDS):
